@@ -13,6 +13,7 @@ const fileInPkg = modulePath + "/plugin/input/file"
 
 func init() {
 	explain("C03", "Narrow static necessary conditions of 'no line lost across kill and restart', decided exhaustively over the source: the committed per-stream offsets of a Job are written only by the acknowledgement path (with the committed event's own offset, only forwards), by truncation (constant 0) and by initialisation from the loaded table; every access to Job.offsets / isDone / ignoreEventsLE is under Job.mu (interprocedural, objects not yet published exempt); only the saver touches the offsets file; in sync mode the saver runs after every stored offset, in async mode a saver goroutine exists and stop() saves; on resume the reader seeks to the MINIMUM saved stream offset and PassEvent refuses exactly offsets <= saved; events older than a truncation are ignored by commit. "+
+		"The offsets file a restart loads is replaced only by a completely written and synced temporary file, and the loader reads the writer's tokens (rules shared with C07). "+
 		"NOT decided: anything about kill instants, rotation, truncation histories or several streams per file as behaviour.",
 		"go/types, go/ssa and x/tools call resolution are correct", "lock identity is by access path; an object reachable only from a fresh allocation in the same call chain is not yet shared")
 	reg("C03", "C03.R1", "E1+E2", "writers of Job.offsets: commit (event.Offset, forward only), truncation (0), initialisation from the loaded table", 3, ruleOffsetWriters)
@@ -20,6 +21,8 @@ func init() {
 	reg("C03", "C03.R3", "E1", "only the saver opens/renames/removes the offsets files", 1, ruleOffsetsFileWriters)
 	reg("C03", "C03.R4", "E2", "persistence: sync mode saves after the stored offset; async saver goroutine; stop() saves", 1, rulePersistence)
 	reg("C03", "C03.R5", "E2", "resume: seek to the minimum saved stream offset; PassEvent refuses exactly offset <= saved", 1, ruleResume)
+	reg("C03", "C03.R6", "E2", "what a restart loads is a completely written file: write -> fsync -> rename with error gating (same rule as C07.R1)", 2, ruleDurableRename)
+	reg("C03", "C03.R7", "E7", "what a restart loads is what was saved: writer tokens = reader tokens (same rule as C07.R5)", 1, ruleTokenAgreement)
 }
 
 // isJobOffsetsAddr: v is &job.offsets
